@@ -9,7 +9,7 @@ EXPLANATION = ("The structure of the DCOP is the solver-chosen input: n variable
                "computed from the scopes. Each path fixes one structure, so exhausting the paths is exhausting the structures "
                "in the bound (the solver's role here is only to carry the structure as a reportable/replayable model).")
 ASSUMPTIONS = ["constraints are neutral relations (values are irrelevant to graph construction)",
-               "variable names v0..v3 inserted in a chosen order (lexical / reversed)"]
+               "variable names of mixed lengths (v2, v10, x, ab, v1: lexical, length-first and numeric orders differ) inserted in a chosen order (as listed / reversed)"]
 BOUNDS = {"quick": "n <= 3 variables with m <= 3 constraints, n = 4 with m <= 2; every scope of size <= 3",
           "thorough": "n <= 4 variables, m <= 3 constraints (all scopes of size <= 3), n = 5 with m <= 2"}
 OUTSIDE = "more than 5 variables / 3 constraints, scopes above 3, duplicate constraint names"
@@ -31,7 +31,8 @@ def run(eng, p):
     from pydcop.dcop.objects import Domain, Variable
     from pydcop.dcop.relations import NeutralRelation
     n = p["n"]
-    names = ["v%d" % i for i in range(n)]
+    # names of different lengths, for which lexical order, length-first order and numeric order all differ
+    names = ["v2", "v10", "x", "ab", "v1"][:n]
     if eng.pick(["lexical", "reversed"], "insertion") == "reversed":
         ins = list(reversed(names))
     else:
